@@ -16,6 +16,8 @@
 //!   IN class <ok|problems|info|err-...>         IN cmdline <printable command line>
 //!   IN argv <hex token>...                       (tokens after the program name, `-` = empty token)
 //!   IN fmt <iccma|apx> ; IN iccma|apx <n> <a b>... (0-based id pairs in file order) ; IN labels <l>...
+//!                                                (a label with a non-ASCII character is written `hex:<hex of its UTF-8 bytes>`)
+//!   IN nonascii labels=0|1 arg=0|1               (the Aspartix labels / the -a operand contain non-ASCII characters)
 //!   IN unreadable                                (the -f operand is not a readable instance for the reader in use)
 //!   IN file <hex bytes>                          (the instance file)
 //!   IN problem <hex> ; IN arg <hex|none> ; IN opts reader=.. encoding=.. cert=0|1 logging=..
@@ -200,8 +202,47 @@ fn iccma_file(rng: &mut Rng, inst: &Inst) -> (Vec<u8>, String) {
 
 const TRICKY: [&str; 12] = ["YES", "NO", "w", "arg", "att", "p", "af", "_", "a", "A", "w1", "_0"];
 
+/// Zero digits of decimal-digit scripts (general category Nd): the `\d` of the identifier pattern is
+/// Unicode, so these digits are legal inside an Aspartix identifier (`[[:alpha:]]` is ASCII only).
+/// 2-byte, 3-byte and 4-byte (outside the BMP) UTF-8 encodings.
+const DIGIT_ZEROS: [u32; 7] = [0x0660, 0x06F0, 0x0966, 0x09E6, 0x0E50, 0xFF10, 0x1D7CE];
+
+fn script_number(zero: u32, k: usize) -> String {
+    k.to_string().bytes().map(|d| char::from_u32(zero + (d - b'0') as u32).unwrap()).collect()
+}
+
 fn apx_labels(rng: &mut Rng, n: usize) -> (Vec<String>, &'static str) {
-    match rng.below(5) {
+    match rng.below(7) {
+        5 | 6 => {
+            // identifiers with non-ASCII decimal digits; one label in four stays ASCII
+            let stems = ["a", "_", "Arg", "x_", "w", "YES"];
+            let mut v: Vec<String> = (0..n)
+                .map(|i| {
+                    let stem = stems[rng.below(stems.len())];
+                    if rng.chance(1, 4) {
+                        format!("{}{}", stem, i)
+                    } else {
+                        let z = DIGIT_ZEROS[rng.below(DIGIT_ZEROS.len())];
+                        let mut l = format!("{}{}", stem, script_number(z, i * 3 + 1));
+                        if rng.chance(1, 3) {
+                            // a second script and an ASCII tail in the same identifier
+                            let z2 = DIGIT_ZEROS[rng.below(DIGIT_ZEROS.len())];
+                            l.push_str(&script_number(z2, i));
+                            l.push('b');
+                        }
+                        l
+                    }
+                })
+                .collect();
+            // labels must be distinct (same stem + same number in the same script)
+            for i in 0..v.len() {
+                while v[..i].contains(&v[i]) {
+                    v[i].push('_');
+                }
+            }
+            rng.shuffle(&mut v);
+            (v, "unicode-digits")
+        }
         0 => ((0..n).map(|i| format!("a{}", i + 1)).collect(), "a<i>"),
         1 => ((0..n).map(|i| format!("x_{}", i)).collect(), "x_<i>"),
         2 => ((0..n).map(|i| format!("Arg{}B", i * 7 + 3)).collect(), "Arg<k>B"),
@@ -219,13 +260,22 @@ fn apx_labels(rng: &mut Rng, n: usize) -> (Vec<String>, &'static str) {
             rng.shuffle(&mut v);
             (v, "letters")
         }
-        _ => {
+        4 => {
             let mut v: Vec<String> = (0..n)
                 .map(|i| if i < TRICKY.len() { TRICKY[i].to_string() } else { format!("t{}", i) })
                 .collect();
             rng.shuffle(&mut v);
             (v, "tricky")
         }
+        _ => unreachable!(),
+    }
+}
+
+fn label_token(l: &str) -> String {
+    if l.is_ascii() {
+        l.to_string()
+    } else {
+        format!("hex:{}", hex(l.as_bytes()))
     }
 }
 
@@ -291,7 +341,7 @@ fn write_instance_lines(out: &mut Out, fmt: &str, inst: &Inst, labels: &[String]
         inst.n,
         join(inst.atts.iter().map(|(a, b)| format!("{} {}", a, b)), " ")
     ));
-    out.inp(&format!("labels {}", join(labels.iter(), " ")));
+    out.inp(&format!("labels {}", join(labels.iter().map(|l| label_token(l)), " ")));
     out.inp(&format!("file {}", hex(file)));
 }
 
@@ -398,6 +448,11 @@ fn ok_case(
         if cert { 1 } else { 0 },
         logging_s
     ));
+    out.inp(&format!(
+        "nonascii labels={} arg={}",
+        if labels.iter().any(|l| !l.is_ascii()) { 1 } else { 0 },
+        if arg.as_ref().map(|a| !a.is_ascii()).unwrap_or(false) { 1 } else { 0 }
+    ));
     out.inp("modelled 1");
     emit_run(env, out, wrapper, &argv);
     out.end();
@@ -453,6 +508,14 @@ fn bad_files() -> Vec<(&'static str, Vec<u8>, &'static str, &'static str)> {
         ("bad_att_first.apx", b"att(a,b).\narg(a).\narg(b).\n".to_vec(), "apx", "err-file-apx-unknown-arg"),
         ("bad_arg_after_att.apx", b"arg(a).\natt(a,a).\narg(b).\n".to_vec(), "apx", "err-file-apx-arg-after-att"),
         ("bad_nonutf8.apx", b"arg(a).\narg(\xff).\n".to_vec(), "apx", "err-file-non-utf8"),
+        // `[[:alpha:]]` is ASCII only: letters of other scripts are not identifier characters
+        ("bad_name_accent.apx", "arg(a).\narg(\u{e9}t\u{e9}).\n".as_bytes().to_vec(), "apx", "err-file-apx-name"),
+        ("bad_name_cyrillic.apx", "arg(\u{434}\u{430}).\n".as_bytes().to_vec(), "apx", "err-file-apx-name"),
+        ("bad_name_greek.apx", "arg(a).\narg(a\u{3b1}).\n".as_bytes().to_vec(), "apx", "err-file-apx-name"),
+        ("bad_name_astral_letter.apx", "arg(\u{1d400}).\n".as_bytes().to_vec(), "apx", "err-file-apx-name"),
+        // a non-ASCII digit may not START an identifier
+        ("bad_name_digit_first.apx", "arg(\u{663}a).\n".as_bytes().to_vec(), "apx", "err-file-apx-name"),
+        ("bad_att_name_accent.apx", "arg(a).\natt(a,\u{e9}).\n".as_bytes().to_vec(), "apx", "err-file-apx-name"),
         ("bad_is_iccma.apx", GOOD_ICCMA.as_bytes().to_vec(), "apx", "err-file-other-format"),
     ]
 }
@@ -564,6 +627,16 @@ fn malformed_family() -> Vec<Bad> {
     for a in ["d", "A", "1", "a ", "a,b", "arg(a)", "[a]"] {
         add("err-unknown-arg", false, toks(&["solve", "-f", "good.apx", "-r", "apx", "-p", "DC-CO", "--logging-level", "off", "-a", a]), ga, true);
         add("err-unknown-arg", false, toks(&["solve", "-f", "good.apx", "--reader", "apx", "-p", "SE-PR", "--logging-level", "off", "-c", "-a", a]), ga, true);
+    }
+    {
+        // non-ASCII operands naming no argument; an operand that is not UTF-8 (clap's value_of panics: 101)
+        let ops: [&[u8]; 5] = ["a\u{663}".as_bytes(), "\u{e9}".as_bytes(), "\u{ff41}".as_bytes(), b"a\xff", b"\xf0\x9d\x9f"];
+        for (k, a) in ops.iter().enumerate() {
+            let mut m = toks(&["solve", "-f", "good.apx", "-r", "apx", "-p", "DC-CO", "--logging-level", "off", "-a"]);
+            m.push(a.to_vec());
+            let _ = k;
+            add("err-unknown-arg", false, m, ga, true);
+        }
     }
     // --- unreadable files
     for f in ["nonexistent.af", "somedir", "somedir/", "good.af/x", "./nonexistent/../good.af"] {
